@@ -455,6 +455,34 @@ def gen_data(tasks):
                 "    (if overwrite then dseq (d_call (src_unregister path_eqb lhs)) (d_call (src_register path_eqb task))\n"
                 "     else dret tt)\n"
                 "    (d_call (src_register path_eqb task))).\n")
+    # ---- Manager.copy_expr_from / iter_expr_tasks_owner / _check_root_owner: the expression tasks of another manager whose
+    #      target lies under one of its top-level containers, loaded here (the text round trip and the rebinding of labels
+    #      are C11's subject: the pairs arrive evaluated, as for load)
+    cro = next((n for n in tasks.body if isinstance(n, ast.FunctionDef) and n.name == "_check_root_owner"), None)
+    if cro is None or [a.arg for a in cro.args.args] != ["t", "ref"] or not same_body(cro, [
+            "if hasattr(t, '_owner'):\n    if t._owner is ref:\n        return True\n    else:\n        return _check_root_owner(t._owner, ref)\n"
+            "else:\n    return False"]):
+        raise Unsupported("_check_root_owner changed")
+    it = method(mg, "iter_expr_tasks_owner", ["ref"])
+    if not same_body(it, ["for t in self.tasks.values():\n    if isinstance(t, ExprTask) and _check_root_owner(t.taskid, ref):\n"
+                          "        yield (str(t.taskid), str(t.expr))"]):
+        raise Unsupported("Manager.iter_expr_tasks_owner changed:\n" + "\n".join(body_src(it)))
+    cp = method(mg, "copy_expr_from", ["mgr", "name", "bindings", "overwrite"])
+    if [ast.unparse(d) for d in cp.args.defaults] != ["None", "True"] or not same_body(cp, [
+            "ref = mgr.containers[name]", "bindings = bindings or {}", "dct = dict(self.containers)",
+            "for source_ref, target_ref in bindings.items():\n    dct[str(source_ref)] = target_ref",
+            "tasks = list(mgr.iter_expr_tasks_owner(ref))", "self.load(tasks, dct, overwrite=overwrite)"]):
+        raise Unsupported("Manager.copy_expr_from changed:\n" + "\n".join(body_src(cp)))
+    load_def += ("\n(* iter_expr_tasks_owner(ref): the expression tasks, in the order of self.tasks, whose target lies under the container\n"
+                 "   (a path lies under the container labelled by its first key) *)\n"
+                 "Definition src_iter_expr_tasks_owner (label : N) (mgr : dmgr) : list (path * expr) :=\n"
+                 "  flat_map (fun kt => match t_act (snd kt) with\n"
+                 "                      | AExpr e => match t_id (snd kt) with l :: _ => if N.eqb l label then [(t_id (snd kt), e)] else [] | [] => [] end\n"
+                 "                      | _ => []\n                      end) (m_tasks mgr).\n\n"
+                 "(* copy_expr_from(mgr, name, bindings, overwrite): those pairs, loaded; orders: the iteration orders of the two sets of\n"
+                 "   each new ExprTask (dependencies, targets) *)\n"
+                 "Definition src_copy_expr_from (mgr : dmgr) (label : N) (orders : path -> list path * list path) (overwrite : bool) : DM unit :=\n"
+                 "  src_load (map (fun pe => (fst pe, snd pe, fst (orders (fst pe)), snd (orders (fst pe)))) (src_iter_expr_tasks_owner label mgr)) overwrite.\n")
     # ---- Manager.mk_fun / gen_fun
     mk = method(mg, "mk_fun", ["name"], kwarg="kwargs")
     want = ["varlist = kwargs.keys()", "start = set()", "for vref in kwargs.values():\n    vref._get_dependencies(start)",
